@@ -64,6 +64,7 @@ class FlowPolicy(Policy):
         # scenario / table harnesses (no injected exceptions): a call of a helper defined in the repository that the rule neither summarises nor
         # tracks as an event is interpreted, not left opaque - so extracting some lines into a helper (method, nested or module-level function) changes nothing
         self.auto_inline = True
+        self.free_inline = set()
         self.auto_inline_max_stmts = 30
         if inline:
             self.inline_depth = 3
@@ -87,7 +88,10 @@ class FlowPolicy(Policy):
                     if isinstance(st, ast.Assign) and len(st.targets) == 1 and isinstance(st.targets[0], ast.Name) and st.targets[0].id == name and name.isupper():
                         try:
                             return _lit(ast.literal_eval(st.value))
-                        except Exception:  # noqa - not a literal
+                        except Exception:  # noqa - not a literal: a table built from literals (`{**dict.fromkeys((..), 60), ..}`)
+                            v = _const_expr(self.program, rel, st.value)
+                            if v is not None:
+                                return v
                             break
         # module-level `NAME = re.compile(<literal>)` of the unit's own module: the compiled pattern itself
         if self.program is not None and rel and name.isupper():
@@ -143,6 +147,11 @@ class FlowPolicy(Policy):
                 return r
         if label in self.summaries:
             return self.summaries[label](interp, node, args, kwargs, cfg, out)
+        if isinstance(fval, FuncV) and isinstance(fval.recv, ObjV):
+            # a summary given for a scenario object applies wherever the object is called from (also inside an interpreted helper)
+            rlabel = f"<{fval.recv.oid}>.{fval.name.rsplit('.', 1)[-1]}"
+            if rlabel in self.summaries:
+                return self.summaries[rlabel](interp, node, args, kwargs, cfg, out)
         ev = self.event_for(label) if label else None
         if ev and ev in self.acquire_labels:
             # an acquisition counts only if the call returns (and, when awaited, the await completes)
@@ -160,7 +169,7 @@ class FlowPolicy(Policy):
         r = interp.builtin_call(node, fname, fval, args, kwargs, cfg, out)
         if r is not None:
             return r
-        if isinstance(fval, FuncV) and (fval.name in self.inline or (label in self.inline)):
+        if isinstance(fval, FuncV) and (fval.name in self.inline or (label in self.inline) or self._inline_unit(fval)):
             return None  # let the interpreter inline it
         if isinstance(fval, FuncV) and fval.closure and self.inline_nested(fval):
             return None
@@ -169,6 +178,7 @@ class FlowPolicy(Policy):
                 and (not isinstance(fval.node, ast.AsyncFunctionDef) or isinstance(getattr(node, "_parent", None), ast.Await)):  # (calling a coroutine function runs nothing until it is awaited)
             if self.inline_depth < 2:
                 self.inline_depth = 2
+            self.free_inline.add(id(fval.node))
             return None
         # un-inlined call
         if label in self.raising_labels or (label and any(label.endswith(x) for x in self.raising_suffixes)):
@@ -180,6 +190,18 @@ class FlowPolicy(Policy):
         if isinstance(fval, ClassV):
             return [(cfg, App("new", (fval, *args)))]
         return [(cfg, App("res", (Const(label or "?"), Const(getattr(node, "lineno", 0)), *args)))]
+
+    def _inline_unit(self, fval):
+        """`inline` entries written as unit names (module::qualified name) select the function itself, wherever the code keeps it and however it is called."""
+        node = getattr(fval, "node", None)
+        if node is None or self.program is None:
+            return False
+        for x in self.inline:
+            if isinstance(x, str) and "::" in x:
+                u = self.program.units.get(x)
+                if u is not None and u.node is node:
+                    return True
+        return False
 
     def _small_local_helper(self, interp, fval):
         """A small function of the module under analysis (same class or module level): the shape an 'extract method' refactoring produces."""
@@ -247,7 +269,7 @@ class FlowInterp(Interp):
         r = self.builtin_call(node, fname, fval, args, kwargs, cfg, out)
         if r is not None:
             return r
-        if isinstance(fval, FuncV) and self.depth < self.policy.inline_depth and self.can_inline(fval):
+        if isinstance(fval, FuncV) and (self.depth < self.policy.inline_depth or id(fval.node) in getattr(self.policy, "free_inline", ())) and self.can_inline(fval):
             return self.inline(node, fval, args, kwargs, cfg, out)
         return [(cfg, App("res", (Const(fname or "?"), *args)))]
 
@@ -282,6 +304,16 @@ def run_flow(program, uid, policy, args=None, heap=None, self_cls=None):
             env[p] = defaults[p]  # a scenario that names its arguments leaves the others at their (constant) defaults, as a call would
         else:
             env[p] = Sym(("param", p))
+    # a summary given for a method of a scenario object (`self.active_expr.eval`, heap slot self.active_expr -> <aexpr>) follows the object:
+    # it applies as well when the object is passed to an interpreted helper and called there under another name
+    summ = getattr(policy, "summaries", None)
+    if isinstance(summ, dict):
+        for label in list(summ):
+            if isinstance(label, str) and "." in label and not label.startswith("<"):
+                slot, meth = label.rsplit(".", 1)
+                v = (heap or {}).get(slot) if "." in slot else env.get(slot)
+                if isinstance(v, ObjV):
+                    summ.setdefault(f"<{v.oid}>.{meth}", summ[label])
     interp.call_stack.append(fn)
     out = interp.run_function(fn, env, Cfg(heap=dict(heap or {})))
     return out
@@ -374,6 +406,30 @@ def module_constants(program, rel):
                 kind = {"Tuple": "tuple", "List": "list", "Set": "set"}[type(v).__name__]
                 consts[st.targets[0].id] = ListV([Const(e.value) for e in v.elts], kind)
     return consts
+
+
+def _concrete(v):
+    if isinstance(v, Const):
+        return True
+    if isinstance(v, ListV):
+        return all(_concrete(x) for x in v.items)
+    if isinstance(v, DictV):
+        return all(_concrete(k) and _concrete(x) for k, x in v.items)
+    return False
+
+
+def _const_expr(program, rel, node):
+    """Value of a module-level constant expression built from literals only (interpreted, never executed), or None."""
+    if any(isinstance(n, (ast.Await, ast.Lambda, ast.Yield, ast.YieldFrom, ast.NamedExpr)) for n in ast.walk(node)):
+        return None
+    from .absint import Interp, Policy
+    try:
+        res = Interp(Policy(program), rel).ev(node, Cfg(), Out())
+    except Exception:  # noqa - not interpretable: not a constant for this purpose
+        return None
+    if len(res) == 1 and _concrete(res[0][1]):
+        return res[0][1]
+    return None
 
 
 def _lit(v):
